@@ -370,8 +370,13 @@ func (e *Engine) mergeValues(c *Term, a, b Value) Value {
 		}
 	case *StrV:
 		if y, ok := b.(*StrV); ok {
-			if diffConst(x.len, y.len) || diffConst(x.off, y.off) {
-				e.mergeLoss = true // concrete lengths would become symbolic
+			if diffConst(x.len, y.len) {
+				// strings of different concrete lengths stay apart as a guarded union: nothing
+				// becomes symbolic, a strict use forks later
+				return e.mkChoice(c, a, b)
+			}
+			if diffConst(x.off, y.off) {
+				e.mergeLoss = e.mergeLoss || !e.lossyOK // concrete offsets would become symbolic
 			}
 			mx := x.max
 			if y.max < 0 || (mx >= 0 && y.max > mx) {
@@ -386,7 +391,7 @@ func (e *Engine) mergeValues(c *Term, a, b Value) Value {
 	case *SliceV:
 		if y, ok := b.(*SliceV); ok && x.obj == y.obj && x.obj != nil {
 			if diffConst(x.len, y.len) || diffConst(x.off, y.off) {
-				e.mergeLoss = true
+				e.mergeLoss = e.mergeLoss || !e.lossyOK
 			}
 			mx := x.max
 			if y.max < 0 || (mx >= 0 && y.max > mx) {
